@@ -39,6 +39,9 @@ THEOREMS = [
     "NfcVerif.C12.isodep_block_bound",
     "NfcVerif.C12.isodep_block_bound_derived",
     "NfcVerif.C12.fsc_fwt_derivation",
+    "NfcVerif.C12.ats_derivation",
+    "NfcVerif.C12.ats_tl_only",
+    "NfcVerif.C12.isodep_block_bound_ats",
 ]
 
 FSC_TABLE = (16, 24, 32, 40, 48, 64, 96, 128, 256)
@@ -49,13 +52,14 @@ class Cfg:
     """one activation + card configuration"""
 
     def __init__(self, kind="A", fsci=0, fwi=4, max_send=256, max_recv=256, chunk=13, wtx=(0, 0, 0), wtxm=1,
-                 rlen=0, sw=b"\x90\x00"):
+                 rlen=0, sw=b"\x90\x00", ats=None):
         self.kind, self.fsci, self.fwi, self.max_send, self.max_recv = kind, fsci, fwi, max_send, max_recv
         self.chunk, self.wtx, self.wtxm, self.rlen, self.sw = chunk, tuple(wtx), wtxm, rlen, bytes(sw)
+        self.ats = None if ats is None else bytes(ats)   # Type 4A: explicit Answer To Select (fsci/fwi = what it announces)
 
     def key(self):
         return (self.kind, self.fsci, self.fwi, self.max_send, self.max_recv, self.chunk, self.wtx, self.wtxm,
-                self.rlen, self.sw)
+                self.rlen, self.sw, self.ats)
 
     def card_words(self):
         return "%d %d %d %d %d %d %s" % (self.chunk, self.wtx[0], self.wtx[1], self.wtx[2], self.wtxm, self.rlen, hx(self.sw))
@@ -63,7 +67,18 @@ class Cfg:
     def as_dict(self):
         return {"kind": self.kind, "fsci": self.fsci, "fwi": self.fwi, "max_send": self.max_send,
                 "max_recv": self.max_recv, "chunk": self.chunk, "wtx_before_response/ack/chained_block": list(self.wtx),
-                "wtxm": self.wtxm, "response_body_len": self.rlen, "sw": self.sw.hex()}
+                "wtxm": self.wtxm, "response_body_len": self.rlen, "sw": self.sw.hex(),
+                "ats": None if self.ats is None else self.ats.hex()}
+
+
+def make_ats(fsci, ta=None, tb=None, tc=None, hist=b"", t0=True):
+    """Answer To Select as laid out in ISO/IEC 14443-4 5.2: TL T0 [TA(1)] [TB(1)] [TC(1)] historical bytes.
+    returns (ats, fsci announced, fwi announced) - defaults FSCI 2 / FWI 4 where the byte is absent"""
+    if not t0:
+        return bytes([1]), 2, 4
+    body = bytes([fsci | (0x10 if ta is not None else 0) | (0x20 if tb is not None else 0) | (0x40 if tc is not None else 0)])
+    body += bytes(x for x in (ta, tb, tc) if x is not None) + bytes(hist)
+    return bytes([len(body) + 1]) + body, fsci, (tb >> 4) if tb is not None else 4
 
 
 def activate(cfg, script, sims, tt4, clfmod):
@@ -71,7 +86,7 @@ def activate(cfg, script, sims, tt4, clfmod):
     card = sims.IsoCard(cfg.chunk, cfg.wtx[0], cfg.wtx[1], cfg.wtx[2], cfg.wtxm, sims.tie_app(cfg.rlen, cfg.sw))
     air = sims.Air(card, script, cfg.max_send, cfg.max_recv)
     if cfg.kind == "A":
-        air.ats = bytes([5, 0x70 | cfg.fsci, 0x80, (cfg.fwi << 4) | 0, 0x02])
+        air.ats = cfg.ats if cfg.ats is not None else bytes([5, 0x70 | cfg.fsci, 0x80, (cfg.fwi << 4) | 0, 0x02])
         target = clfmod.RemoteTarget("106A", sens_res=bytearray(b"\x44\x03"), sel_res=bytearray(b"\x20"),
                                      sdd_res=bytearray(b"\x04\x01\x02\x03\x04\x05\x06"))
         tag = tt4.Type4ATag(air, target)
@@ -265,6 +280,56 @@ def run(ck):
                     if abs(dep.fwt - f) > 1e-12 or dep.n_retry_nak != min(int(1 / f), 5) or dep.n_retry_ack != dep.n_retry_nak:
                         ck.fail("isodep-fwt-derivation", "%s fwi %d: fwt %r retry %d" % (kind, fwi, dep.fwt, dep.n_retry_nak), act_reqs[-1][2])
 
+    # every legal ATS shape: TL only; T0 with any subset of TA/TB/TC; historical bytes; x FSCI 0..15 x FWI x device limit,
+    # and an exchange that follows the activation must respect the frame size the card announced
+    hists = list(range(16)) if ck.thorough else [0, 1, 2, 15]
+    shapes_ats = [(None, 0, 0, 0, 0, 0)]
+    for fsci in range(16):
+        for pa in (0, 1):
+            for pb in (0, 1):
+                for pc in (0, 1):
+                    for fwi in (range(16) if pb else [4]):
+                        for hl in hists:
+                            shapes_ats.append((fsci, pa, pb, pc, fwi, hl))
+    for si, (fsci, pa, pb, pc, fwi, hl) in enumerate(shapes_ats):
+        hist = bytes(rng.randrange(256) for _ in range(hl))
+        if fsci is None:
+            ats, afsci, afwi = make_ats(0, t0=False)
+        else:
+            ats, afsci, afwi = make_ats(fsci, rng.randrange(256) if pa else None,
+                                        ((fwi << 4) | rng.randrange(16)) if pb else None,
+                                        rng.randrange(256) if pc else None, hist)
+        for ms in ([256, 20] if not ck.thorough else [256, 300, 20, 16]):
+            cfg = Cfg("A", afsci, afwi, ms, ats=ats)
+            tag, air, card = activate(cfg, "", sims, tt4, nfc.clf)
+            dep = tag._dep
+            real = "ok %d %d %d %d" % (dep.miu, dep.n_retry_nak, dep.n_retry_ack, dep.pni)
+            rp = {"kind": "A", "ats": ats.hex(), "fsci_announced": afsci, "fwi_announced": afwi, "max_send": ms}
+            act_reqs.append(("act A %s %d" % (hx(ats), ms), real, rp))
+            ck.case(("ats", ats, ms), True, "activation:ATS shape")
+            want_fsc = min(FSC_TABLE[min(afsci, 8)], ms)
+            if dep.miu != want_fsc - 3:
+                ck.fail("isodep-fsc-derivation", "ATS %s (FSCI %d) limit %d: miu %d, expected %d" % (ats.hex(), afsci, ms, dep.miu, want_fsc - 3), rp)
+            f = fwt_of(afwi if afwi <= 14 else 4)
+            if abs(dep.fwt - f) > 1e-12 or dep.n_retry_nak != min(int(1 / f), 5):
+                ck.fail("isodep-fwt-derivation", "ATS %s (FWI %d): fwt %r retry %d" % (ats.hex(), afwi, dep.fwt, dep.n_retry_nak), rp)
+        # a following exchange: chained command and response, one lost block; blocks <= FSC of the card (oracle in one())
+        if hl == hists[0] and (fwi in (4, 10) or fsci is None):
+            fsc = FSC_TABLE[min(afsci, 8)]
+            one(Cfg("A", afsci, afwi, 256, 256, 13, (0, 0, 0), 1, 20, ats=ats), rng.choice(["", "ddl", "dddc"]),
+                [make_cmd(rng, 2 * fsc + 1, 0xB0)], "exchange after ATS shape")
+    # truncated / inconsistent ATS (T0 announces bytes that are missing, empty answer): compared with the model only
+    for raw in [b"", b"\x02\x20", b"\x02\x35", b"\x03\x30\x80", b"\x03\x71\x80", b"\x02\x7f", b"\x01\x05\x00\x00"]:
+        cfg = Cfg("A", 2, 4, 256, ats=raw)
+        try:
+            tag, air, card = activate(cfg, "", sims, tt4, nfc.clf)
+            dep = tag._dep
+            real = "ok %d %d %d %d" % (dep.miu, dep.n_retry_nak, dep.n_retry_ack, dep.pni)
+        except Exception as e:  # noqa
+            real = "exc " + exc_name(e)
+        act_reqs.append(("act A %s 256" % hx(raw), real, {"kind": "A", "ats": raw.hex(), "max_send": 256}))
+        ck.case(("ats-malformed", raw), True, "activation:ATS truncated")
+
     # ------------------------------------------------------------------ exhaustive fault scripts over short exchanges
     # exchanges of <= 5 blocks: (command length, response body length) around multiples of FSC-3 = 13 (FSCI 0)
     shapes = [(5, 3), (13, 0), (14, 9), (14, 12), (26, 11), (27, 11), (27, 12), (13, 25), (5, 38), (39, 0)]
@@ -308,6 +373,12 @@ def run(ck):
         fwi = rng.choice([0, 4, 8, 9, 10, 10, 11, 11, 12, 14, 15])
         max_send = rng.choice([256, 256, 256, 64, 24, 16, 300])
         kind = rng.choice("AB")
+        ats = None
+        if kind == "A" and rng.random() < 0.5:
+            pb = rng.random() < 0.6
+            ats, fsci, fwi = make_ats(fsci, rng.randrange(256) if rng.random() < 0.5 else None, ((fwi << 4) | rng.randrange(16)) if pb else None,
+                                      rng.randrange(256) if rng.random() < 0.5 else None, bytes(rng.randrange(256) for _ in range(rng.randrange(0, 16))),
+                                      t0=rng.random() < 0.95)
         fsc = min(FSC_TABLE[min(fsci, 8)], max_send)
         miu = fsc - 3
         chunk = rng.choice([1, 2, 13, 13, 29, 61, 125, 253])
@@ -324,7 +395,7 @@ def run(ck):
         if rng.random() < 0.1 and chunk > 2:
             rlen = rng.randrange(0, 300)
         cfg = Cfg(kind, fsci, fwi, max_send, rng.choice([256, 255]), chunk, wtx, rng.choice([1, 2, 59, 63, 0x41]), rlen,
-                  rng.choice([b"\x90\x00", b"\x90\x00", b"\x6a\x82", b"\x00\x00"]))
+                  rng.choice([b"\x90\x00", b"\x90\x00", b"\x6a\x82", b"\x00\x00"]), ats=ats)
         ncmd = 1 if rng.random() < 0.7 else rng.choice([2, 3])
         cmds = []
         for j in range(ncmd):
